@@ -1,10 +1,37 @@
 /-!
-# Outstation database — INTERFACE used by the session model (`Dnp3.Model.Outstation`)
+# Outstation database — executable model of `outstation/database/**`
 
-Model of `outstation/database/**` (event buffer, static database, response writing) for the
-point types the session engine configures: binary inputs (static g1v2, events g2v1) and analog
-inputs (static g30v1, events g32v1).  THIS FILE IS A STUB (empty database) until the full model
-lands; the signatures are the contract.
+Event buffer (`details/event/{buffer,list,writer,write_fn,traits}.rs`), static database
+(`details/range/{static_db,writer,traits}.rs`), READ header mapping (`read.rs`) and response
+writing (`details/database.rs`, `mod.rs`) for the two point types the harness configures:
+
+* binary input  — static g1v2, event g2v1, `FlagsDetector`
+* analog input  — static g30v1, event g32v1, dead-band 0; values are integers carried as `f64`
+  (exact for |value| < 2^53)
+
+with `EventBufferConfig::no_events()` + `max_binary = max_analog = evMax`, the default
+`ClassZeroConfig`, and `max_read_request_headers` = `max(configured, 64)`.
+
+The interface (`PtType`, `ReadHdr`, `UpdInfo`, `Db`, `Db.new`, `Db.add`, `Db.update`, `Db.select`,
+`Db.writeResponse`, `Db.writeUnsolicited`, `Db.clearWritten`, `Db.reset`, `Db.unwrittenClasses`,
+`Db.isOverflown`, plus `Db.readSupported`) is the contract of the session model
+(`Dnp3.Model.Outstation`).  Everything else lives in `Dnp3.DbM` (helpers) or is `Db.`-prefixed.
+
+READ headers covered (`ReadHdr.classify`): every (group, variation) the request parser accepts
+with qualifiers 0x06, 0x00, 0x01, 0x07, 0x08 — g60v1..4; g1v0..2, g30v0..6, g34v0..3 (dead-bands,
+always 0); g2v0..3 (g2v3 with its g51v1 common-time header), g32v0..8; the types without points
+(g3, g10, g20, g21, g40, g110 static; g4, g11, g22, g23, g42, g111v0 events; g31 / g33 frozen
+analogs); g0 device attributes (none defined); and the headers `ReadHeader::get` rejects
+(g13, g43, g80, g102, g111vN, g50/51/52) → IIN2.0.  Not covered: qualifiers 0x17 / 0x28 / 0x5B
+inside a READ (`uncovered`).  `parseReadHdrs` splits request octets; `classify = parseError`
+marks what `HeaderCollection::parse` refuses (the whole request is then refused).
+
+Conventions: indices < 65536, flags < 256 (octets), times are reduced mod 2^48
+(`Timestamp::new`), event class 1..3 (anything else = no class).  `VecList` is abstracted to `List`
+(`add` = append, `remove_first p`, `remove_all p`, `iter` = list order).
+
+Known defect D3 is reproduced on purpose: `insert` into a full type discards the oldest record of
+that type without decrementing `written` when that record is `Written`.
 -/
 namespace Dnp3
 
@@ -25,42 +52,792 @@ inductive UpdInfo where
   | noPoint | noEvent | created (id : Nat) | overflow (created discarded : Nat)
 deriving DecidableEq, Repr, Inhabited
 
+namespace DbM
+
+/-! ## little-endian / two's complement / IEEE-754 helpers -/
+
+def le16 (n : Nat) : List Nat := [n % 256, n / 256 % 256]
+def le32 (n : Nat) : List Nat := [n % 256, n / 256 % 256, n / 65536 % 256, n / 16777216 % 256]
+def le48 (n : Nat) : List Nat :=
+  [n % 256, n / 256 % 256, n / 65536 % 256, n / 16777216 % 256, n / 4294967296 % 256, n / 1099511627776 % 256]
+def le64 (n : Nat) : List Nat := le32 (n % 4294967296) ++ le32 (n / 4294967296 % 4294967296)
+
+/-- two's complement of `v` in `bits` bits -/
+def twos (bits : Nat) (v : Int) : Nat := (v % (2 ^ bits : Nat)).toNat
+
+/-- `AnalogConversions::to_i32` / `to_i16`: saturate and report OVER_RANGE -/
+def satInt (bits : Nat) (v : Int) : Int × Bool :=
+  let lo : Int := - (2 ^ (bits - 1) : Nat)
+  let hi : Int := (2 ^ (bits - 1) : Nat) - 1
+  if v < lo then (lo, true) else if v > hi then (hi, true) else (v, false)
+
+/-- biased exponent and stored mantissa of the nearest (ties to even) binary float with `mbits`
+    mantissa bits to the positive integer `n` (no overflow handling: callers saturate first) -/
+def floatParts (mbits bias : Nat) (n : Nat) : Nat × Nat :=
+  let e := n.log2
+  if e ≤ mbits then (e + bias, n * 2 ^ (mbits - e) - 2 ^ mbits)
+  else
+    let sh := e - mbits
+    let q := n / 2 ^ sh
+    let r := n % 2 ^ sh
+    let half := 2 ^ (sh - 1)
+    let q' := if r > half ∨ (r = half ∧ q % 2 = 1) then q + 1 else q
+    if q' = 2 ^ (mbits + 1) then (e + 1 + bias, 0) else (e + bias, q' - 2 ^ mbits)
+
+/-- IEEE-754 binary64 bits of `v as f64` (exact for |v| < 2^53, else nearest-even) -/
+def f64Bits (v : Int) : Nat :=
+  if v = 0 then 0 else
+  let (e, m) := floatParts 52 1023 v.natAbs
+  (if v < 0 then 2 ^ 63 else 0) + e * 2 ^ 52 + m
+
+/-- largest finite f32 as an integer -/
+def f32MaxInt : Nat := (2 ^ 24 - 1) * 2 ^ 104
+
+/-- `to_f32`: (bits of the f32, over-range) -/
+def f32Bits (v : Int) : Nat × Bool :=
+  if v = 0 then (0, false) else
+  if v.natAbs > f32MaxInt then ((if v < 0 then 2 ^ 31 else 0) + 0x7F7FFFFF, true) else
+  let (e, m) := floatParts 23 127 v.natAbs
+  ((if v < 0 then 2 ^ 31 else 0) + e * 2 ^ 23 + m, false)
+
+/-! ## measurements, events, points -/
+
+/-- a stored measurement: `value` is 0/1 for a binary input; `time` = `Some(Time::Synchronized t)`
+    for every update made through `Db.update`, and 0 for the `Default` value (whose `None` time is
+    never encoded by any static variation) -/
+structure Meas where
+  value : Int := 0
+  flags : Nat := 2          -- `Flags::RESTART`, the constructor default
+  time : Nat := 0
+deriving DecidableEq, Repr, Inhabited
+
+/-- `WireFlags::get_wire_flags` -/
+def Meas.wire (t : PtType) (m : Meas) : Nat :=
+  match t with
+  | .binary => m.flags % 128 + (if m.value ≠ 0 then 128 else 0)
+  | .analog => m.flags
+
+def overRange (f : Nat) (o : Bool) : Nat := if o then f ||| 0x20 else f
+
+inductive EvState where | unselected | selected | written
+deriving DecidableEq, Repr, Inhabited
+
+structure EvRec where
+  id : Nat
+  index : Nat
+  cls : Nat               -- 1, 2, 3
+  ty : PtType
+  m : Meas
+  defVar : Nat            -- the point's configured event variation
+  selVar : Nat            -- `Variation::selected`
+  st : EvState := .unselected
+deriving DecidableEq, Repr, Inhabited
+
+/-- `ClassCounter` + the two relevant fields of `TypeCounter` -/
+structure Counters where
+  c1 : Nat := 0
+  c2 : Nat := 0
+  c3 : Nat := 0
+  bin : Nat := 0
+  an : Nat := 0
+deriving DecidableEq, Repr, Inhabited
+
+def Counters.cls (c : Counters) : Nat → Nat
+  | 1 => c.c1 | 2 => c.c2 | 3 => c.c3 | _ => 0
+def Counters.ty (c : Counters) : PtType → Nat
+  | .binary => c.bin | .analog => c.an
+
+def Counters.incCls (c : Counters) : Nat → Counters
+  | 1 => { c with c1 := c.c1 + 1 } | 2 => { c with c2 := c.c2 + 1 } | 3 => { c with c3 := c.c3 + 1 } | _ => c
+def Counters.decCls (c : Counters) : Nat → Counters
+  | 1 => { c with c1 := c.c1 - 1 } | 2 => { c with c2 := c.c2 - 1 } | 3 => { c with c3 := c.c3 - 1 } | _ => c
+def Counters.incTy (c : Counters) : PtType → Counters
+  | .binary => { c with bin := c.bin + 1 } | .analog => { c with an := c.an + 1 }
+def Counters.decTy (c : Counters) : PtType → Counters
+  | .binary => { c with bin := c.bin - 1 } | .analog => { c with an := c.an - 1 }
+/-- `Counters::increment(record)` -/
+def Counters.inc (c : Counters) (r : EvRec) : Counters := (c.incTy r.ty).incCls r.cls
+/-- `Counters::decrement(record)` -/
+def Counters.dec (c : Counters) (r : EvRec) : Counters := (c.decCls r.cls).decTy r.ty
+
+structure Point where
+  current : Meas := {}
+  selected : Meas := {}
+  lastEvent : Meas := {}
+  cls : Nat := 0
+deriving DecidableEq, Repr, Inhabited
+
+/-- kinds of entries of the static selection queue (`SpecificVariation`) -/
+inductive SelKind where
+  | binary (var : Option Nat)     -- g1 : requested variation 1|2
+  | analog (var : Option Nat)     -- g30: requested variation 1..6
+  | deadband (var : Option Nat)   -- g34: requested variation 1..3
+  | other                         -- a point type with no points configured: writes nothing
+deriving DecidableEq, Repr, Inhabited
+
+structure SelItem where
+  kind : SelKind
+  start : Nat
+  stop : Nat
+deriving DecidableEq, Repr, Inhabited
+
+end DbM
+open DbM
+
 structure Db where
   evMax : Nat := 0
+  selCap : Nat := 64
+  -- event buffer
+  events : List EvRec := []
+  total : Counters := {}
+  written : Counters := {}
+  overflown : Bool := false
+  next : Nat := 0
+  -- static database: ascending by index, indices unique
+  bins : List (Nat × Point) := []
+  ans : List (Nat × Point) := []
+  queue : List SelItem := []
+  /-- pending device-attribute selections (`attrs::Selection`, at most 32); no attribute is ever
+      defined in the modelled configuration, so they write nothing -/
+  attrSel : Nat := 0
 deriving Repr, Inhabited
 
-def Db.new (evMax : Nat) (_maxReadSel : Option Nat) : Db := { evMax := evMax }
+namespace DbM
+/-- `OutstationConfig::DEFAULT_MAX_READ_REQUEST_HEADERS` -/
+def defaultMaxReadHeaders : Nat := 64
+
+end DbM
+
+def Db.new (evMax : Nat) (maxReadSel : Option Nat) : Db :=
+  { evMax := evMax
+    selCap := match maxReadSel with
+      | some n => max n defaultMaxReadHeaders
+      | none => defaultMaxReadHeaders }
+
+/-! ## ordered point maps (`BTreeMap<u16, Point<T>>`) -/
+
+namespace DbM
+def pmLookup : List (Nat × Point) → Nat → Option Point
+  | [], _ => none
+  | (i, p) :: rest, k => if i = k then some p else if k < i then none else pmLookup rest k
+
+/-- insert a new point keeping ascending order; `none` if the index exists -/
+def pmInsert : List (Nat × Point) → Nat → Point → Option (List (Nat × Point))
+  | [], k, p => some [(k, p)]
+  | (i, q) :: rest, k, p =>
+    if i = k then none
+    else if k < i then some ((k, p) :: (i, q) :: rest)
+    else match pmInsert rest k p with
+      | some r => some ((i, q) :: r)
+      | none => none
+
+def pmSet : List (Nat × Point) → Nat → Point → List (Nat × Point)
+  | [], _, _ => []
+  | (i, q) :: rest, k, p => if i = k then (i, p) :: rest else (i, q) :: pmSet rest k p
+
+end DbM
+
+def Db.map (db : Db) : PtType → List (Nat × Point)
+  | .binary => db.bins | .analog => db.ans
+def Db.setMap (db : Db) (t : PtType) (m : List (Nat × Point)) : Db :=
+  match t with
+  | .binary => { db with bins := m } | .analog => { db with ans := m }
+
+namespace DbM
+def normClass (c : Nat) : Nat := if c = 1 ∨ c = 2 ∨ c = 3 then c else 0
+
+end DbM
 
 /-- `Database::add` (class 0 = no event class) -/
-def Db.add (db : Db) (_t : PtType) (_idx _cls : Nat) : Db × Bool := (db, false)
+def Db.add (db : Db) (t : PtType) (idx cls : Nat) : Db × Bool :=
+  match pmInsert (db.map t) idx { cls := normClass cls } with
+  | some m => (db.setMap t m, true)
+  | none => (db, false)
+
+/-! ## event buffer -/
+
+namespace DbM
+/-- `VecList::remove_first(is_type)` -/
+def removeFirstTy (t : PtType) : List EvRec → Option (EvRec × List EvRec)
+  | [] => none
+  | r :: rs =>
+    if r.ty = t then some (r, rs)
+    else match removeFirstTy t rs with
+      | some (d, rs') => some (d, r :: rs')
+      | none => none
+
+inductive InsertResult where
+  | typeMaxIsZero | ok (id : Nat) | overflow (created discarded : Nat)
+deriving DecidableEq, Repr, Inhabited
+
+end DbM
+
+/-- `EventBuffer::insert` (D3 reproduced: `written` is not touched when the discarded record is
+    `Written`) -/
+def Db.insert (db : Db) (idx cls : Nat) (t : PtType) (m : Meas) (defVar : Nat) : Db × InsertResult :=
+  if db.evMax = 0 then (db, .typeMaxIsZero) else
+  let id := db.next
+  let mk : EvRec := { id := id, index := idx, cls := cls, ty := t, m := m, defVar := defVar, selVar := defVar }
+  if db.total.ty t = db.evMax then
+    match removeFirstTy t db.events with
+    | some (d, rest) =>
+      ({ db with next := id + 1, events := rest ++ [mk]
+                 total := (((db.total.decTy t).decCls d.cls).incCls cls).incTy t
+                 overflown := true },
+       .overflow id d.id)
+    | none =>
+      ({ db with next := id + 1, events := db.events ++ [mk], total := (db.total.incCls cls).incTy t }, .ok id)
+  else
+    ({ db with next := id + 1, events := db.events ++ [mk], total := (db.total.incCls cls).incTy t }, .ok id)
+
+namespace DbM
+/-- `EventDetector::is_event` (flags detector for binaries, dead-band 0 for analogs) -/
+def isEvent (t : PtType) (last new : Meas) : Bool :=
+  last.wire t != new.wire t || (t == .analog && last.value != new.value)
+
+def defaultEventVar : PtType → Nat
+  | .binary => 1 | .analog => 1
+
+end DbM
+
+namespace DbM
+/-- the measurement an update carries: `BinaryInput::new(value != 0, flags, Synchronized(time))` /
+    `AnalogInput::new(value as f64, ..)`; `Timestamp::new` keeps 48 bits -/
+def mkMeas (t : PtType) (value : Int) (flags time : Nat) : Meas :=
+  { value := match t with
+      | .binary => if value ≠ 0 then 1 else 0
+      | .analog => value
+    flags := flags, time := time % 2 ^ 48 }
+end DbM
 
 /-- `Database::update2` with `UpdateOptions::detect_event()` -/
-def Db.update (db : Db) (_t : PtType) (_idx : Nat) (_value : Int) (_flags _time : Nat) : Db × UpdInfo :=
-  (db, .noPoint)
+def Db.update (db : Db) (t : PtType) (idx : Nat) (value : Int) (flags time : Nat) : Db × UpdInfo :=
+  match pmLookup (db.map t) idx with
+  | none => (db, .noPoint)
+  | some p =>
+    let m : Meas := mkMeas t value flags time
+    if isEvent t p.lastEvent m then
+      let db1 := db.setMap t (pmSet (db.map t) idx { p with current := m, lastEvent := m })
+      if p.cls = 0 then (db1, .noEvent) else
+      match db1.insert idx p.cls t m (defaultEventVar t) with
+      | (db2, .typeMaxIsZero) => (db2, .noEvent)
+      | (db2, .ok id) => (db2, .created id)
+      | (db2, .overflow c d) => (db2, .overflow c d)
+    else
+      (db.setMap t (pmSet (db.map t) idx { p with current := m }), .noEvent)
 
-/-- `ReadHeader::get` returns `Some` (the header is supported in READ requests) -/
-def Db.readSupported (_h : ReadHdr) : Bool := true
+namespace DbM
+/-- `EventBuffer::select`: the first `limit` `Unselected` records satisfying `p` become `Selected`
+    with selected variation `var` (or their default); returns the count -/
+def selectEvents (p : EvRec → Bool) (var : Option Nat) : Option Nat → List EvRec → List EvRec × Nat
+  | _, [] => ([], 0)
+  | some 0, rs => (rs, 0)
+  | limit, r :: rs =>
+    if r.st = .unselected ∧ p r then
+      let (rs', n) := selectEvents p var (limit.map (· - 1)) rs
+      ({ r with st := .selected, selVar := var.getD r.defVar } :: rs', n + 1)
+    else
+      let (rs', n) := selectEvents p var limit rs
+      (r :: rs', n)
+
+/-! ### event writer (`EventWriter`, `write_fn.rs`) -/
+
+/-- encoded size of one event object (without the 2-octet index prefix) -/
+def evObjSize : PtType → Nat → Nat
+  | .binary, 1 => 1 | .binary, 2 => 7 | .binary, 3 => 3
+  | .analog, 1 => 5 | .analog, 2 => 3 | .analog, 3 => 11 | .analog, 4 => 9
+  | .analog, 5 => 5 | .analog, 6 => 9 | .analog, 7 => 11 | .analog, 8 => 15
+  | _, _ => 0
+
+def evGroup : PtType → Nat
+  | .binary => 2 | .analog => 32
+
+/-- `EventVariation::uses_cto` -/
+def usesCto (t : PtType) (v : Nat) : Bool := t == .binary && v == 3
+
+/-- `HeaderState` + `HeaderType` of the event writer -/
+structure EvCur where
+  ty : PtType
+  var : Nat
+  count : Nat
+  cto : Nat
+deriving DecidableEq, Repr, Inhabited
+
+def EvCur.start (r : EvRec) : EvCur := { ty := r.ty, var := r.selVar, count := 1, cto := r.m.time }
+def EvCur.inc (c : EvCur) : EvCur := { c with count := c.count + 1 }
+
+/-- does `r` go under the header in progress? (same type, same variation, count below u16::MAX,
+    and for g2v3 a relative time that fits: all times are `Synchronized`) -/
+def evContinues (c : EvCur) (r : EvRec) : Bool :=
+  c.ty == r.ty && c.var == r.selVar && c.count != 65535 &&
+  (!usesCto r.ty r.selVar || (c.cto ≤ r.m.time && r.m.time - c.cto ≤ 65535))
+
+/-- octets needed by `r` given the writer state -/
+def evCost (cur : Option EvCur) (r : EvRec) : Nat :=
+  match cur with
+  | some c =>
+    if evContinues c r then 2 + evObjSize r.ty r.selVar
+    else (if usesCto r.ty r.selVar then 10 else 0) + 5 + 2 + evObjSize r.ty r.selVar
+  | none => (if usesCto r.ty r.selVar then 10 else 0) + 5 + 2 + evObjSize r.ty r.selVar
+
+def evNext (cur : Option EvCur) (r : EvRec) : EvCur :=
+  match cur with
+  | some c => if evContinues c r then c.inc else EvCur.start r
+  | none => EvCur.start r
+
+/-- `write_events`: walk the list, write every `Selected` record until one does not fit;
+    returns (list with the written records marked `Written`, written records in order, complete) -/
+def evLoop (cap : Nat) : List EvRec → Nat → Option EvCur → List EvRec × List EvRec × Bool
+  | [], _, _ => ([], [], true)
+  | r :: rs, used, cur =>
+    if r.st = .selected then
+      if used + evCost cur r ≤ cap then
+        let (rs', w, c) := evLoop cap rs (used + evCost cur r) (some (evNext cur r))
+        ({ r with st := .written } :: rs', r :: w, c)
+      else (r :: rs, [], false)
+    else
+      let (rs', w, c) := evLoop cap rs used cur
+      (r :: rs', w, c)
+
+/-- the object octets of one event under header state `c` (`c.cto` = the header's time) -/
+def evObj (cto : Nat) (r : EvRec) : List Nat :=
+  match r.ty, r.selVar with
+  | .binary, 1 => [r.m.wire .binary]
+  | .binary, 2 => [r.m.wire .binary] ++ le48 r.m.time
+  | .binary, 3 => [r.m.wire .binary] ++ le16 (r.m.time - cto)
+  | .analog, 1 => let (v, o) := satInt 32 r.m.value; [overRange r.m.flags o] ++ le32 (twos 32 v)
+  | .analog, 2 => let (v, o) := satInt 16 r.m.value; [overRange r.m.flags o] ++ le16 (twos 16 v)
+  | .analog, 3 => let (v, o) := satInt 32 r.m.value; [overRange r.m.flags o] ++ le32 (twos 32 v) ++ le48 r.m.time
+  | .analog, 4 => let (v, o) := satInt 16 r.m.value; [overRange r.m.flags o] ++ le16 (twos 16 v) ++ le48 r.m.time
+  | .analog, 5 => let (b, o) := f32Bits r.m.value; [overRange r.m.flags o] ++ le32 b
+  | .analog, 6 => [r.m.flags] ++ le64 (f64Bits r.m.value)
+  | .analog, 7 => let (b, o) := f32Bits r.m.value; [overRange r.m.flags o] ++ le32 b ++ le48 r.m.time
+  | .analog, 8 => [r.m.flags] ++ le64 (f64Bits r.m.value) ++ le48 r.m.time
+  | _, _ => []
+
+/-- number of records after a header's first that stay under it -/
+def evRunLen (c : EvCur) : List EvRec → Nat
+  | [] => 0
+  | r :: rs => if evContinues c r then 1 + evRunLen c.inc rs else 0
+
+/-- g51v1 common-time-of-occurrence header (all times are synchronised) -/
+def ctoHeader (time : Nat) : List Nat := [51, 1, 0x07, 1] ++ le48 time
+
+def evHeader (r : EvRec) (count : Nat) : List Nat :=
+  (if usesCto r.ty r.selVar then ctoHeader r.m.time else []) ++
+  [evGroup r.ty, r.selVar, 0x28] ++ le16 count
+
+/-- the octets `write_events` produces for the records `rs` written in this order -/
+def encodeEvents : Option EvCur → List EvRec → List Nat
+  | _, [] => []
+  | cur, r :: rs =>
+    match cur with
+    | some c =>
+      if evContinues c r then le16 r.index ++ evObj c.cto r ++ encodeEvents (some c.inc) rs
+      else evHeader r (1 + evRunLen (EvCur.start r) rs) ++ le16 r.index ++ evObj r.m.time r
+            ++ encodeEvents (some (EvCur.start r)) rs
+    | none => evHeader r (1 + evRunLen (EvCur.start r) rs) ++ le16 r.index ++ evObj r.m.time r
+            ++ encodeEvents (some (EvCur.start r)) rs
+
+end DbM
+
+/-- `EventBuffer::write_events` on the database -/
+def Db.writeEvents (db : Db) (cap : Nat) : Db × List EvRec × Bool :=
+  let (evs, w, c) := evLoop cap db.events 0 none
+  ({ db with events := evs, written := w.foldl Counters.inc db.written }, w, c)
+
+/-! ## static database -/
+
+namespace DbM
+/-- one static object to be written: index, (group, variation) after `promote`, value -/
+structure SObj where
+  idx : Nat
+  g : Nat
+  v : Nat
+  m : Meas
+deriving DecidableEq, Repr, Inhabited
+
+/-- packed single-bit variation? (`WriteType::Bits`) -/
+def isBits (g v : Nat) : Bool := g == 1 && v == 1
+
+def stObjSize : Nat → Nat → Nat
+  | 1, 2 => 1
+  | 30, 1 => 5 | 30, 2 => 3 | 30, 3 => 4 | 30, 4 => 2 | 30, 5 => 5 | 30, 6 => 9
+  | 34, 1 => 2 | 34, 2 => 4 | 34, 3 => 4
+  | _, _ => 0
+
+/-- `StaticVariation::promote` for g1v1 -/
+def promoteBin (v : Nat) (m : Meas) : Nat :=
+  if v = 1 then (if m.flags % 128 = 1 then 1 else 2) else v
+
+def inRange (it : SelItem) (i : Nat) : Bool := it.start ≤ i && i ≤ it.stop
+
+/-- the objects a queue entry stands for, ascending (`inner.range(range)` + variation choice) -/
+def itemObjs (db : Db) (it : SelItem) : List SObj :=
+  match it.kind with
+  | .binary var =>
+    (db.bins.filter (fun p => inRange it p.1)).map fun p =>
+      { idx := p.1, g := 1, v := promoteBin (var.getD 2) p.2.selected, m := p.2.selected }
+  | .analog var =>
+    (db.ans.filter (fun p => inRange it p.1)).map fun p =>
+      { idx := p.1, g := 30, v := var.getD 1, m := p.2.selected }
+  | .deadband var =>
+    (db.ans.filter (fun p => inRange it p.1)).map fun p =>
+      { idx := p.1, g := 34, v := var.getD 3, m := { value := 0, flags := 0 } }
+  | .other => []
+
+/-- `State::Header` of the range writer: variation, last index, values under the header -/
+structure StCur where
+  g : Nat
+  v : Nat
+  last : Nat
+  n : Nat
+deriving DecidableEq, Repr, Inhabited
+
+def stContinues (c : StCur) (o : SObj) : Bool := c.g == o.g && c.v == o.v && o.idx == c.last + 1
+
+def stCost (cur : Option StCur) (o : SObj) : Nat :=
+  match cur with
+  | some c =>
+    if stContinues c o then (if isBits o.g o.v then (if c.n % 8 = 0 then 1 else 0) else stObjSize o.g o.v)
+    else 7 + (if isBits o.g o.v then 1 else stObjSize o.g o.v)
+  | none => 7 + (if isBits o.g o.v then 1 else stObjSize o.g o.v)
+
+def stNext (cur : Option StCur) (o : SObj) : StCur :=
+  match cur with
+  | some c => if stContinues c o then { c with last := o.idx, n := c.n + 1 } else { g := o.g, v := o.v, last := o.idx, n := 1 }
+  | none => { g := o.g, v := o.v, last := o.idx, n := 1 }
+
+/-- `write_typed_range`: (written objects, octets used afterwards, index at which space ran out) -/
+def stLoop (cap : Nat) : List SObj → Nat → Option StCur → List SObj × Nat × Option Nat
+  | [], used, _ => ([], used, none)
+  | o :: os, used, cur =>
+    if used + stCost cur o ≤ cap then
+      let (w, u, f) := stLoop cap os (used + stCost cur o) (some (stNext cur o))
+      (o :: w, u, f)
+    else ([], used, some o.idx)
+
+/-- `StaticDatabase::write`: items written (one object list per queue entry touched),
+    the remaining queue, octets used -/
+def qLoop (db : Db) (cap : Nat) : List SelItem → Nat → List (List SObj) × List SelItem × Nat
+  | [], used => ([], [], used)
+  | it :: its, used =>
+    match stLoop cap (itemObjs db it) used none with
+    | (w, u, none) =>
+      let (ws, q, u') := qLoop db cap its u
+      (w :: ws, q, u')
+    | (w, u, some i) => ([w], { it with start := i } :: its, u)
+
+def stObjBytes (o : SObj) : List Nat :=
+  match o.g, o.v with
+  | 1, 2 => [o.m.wire .binary]
+  | 30, 1 => let (v, ov) := satInt 32 o.m.value; [overRange o.m.flags ov] ++ le32 (twos 32 v)
+  | 30, 2 => let (v, ov) := satInt 16 o.m.value; [overRange o.m.flags ov] ++ le16 (twos 16 v)
+  | 30, 3 => le32 (twos 32 (satInt 32 o.m.value).1)
+  | 30, 4 => le16 (twos 16 (satInt 16 o.m.value).1)
+  | 30, 5 => let (b, ov) := f32Bits o.m.value; [overRange o.m.flags ov] ++ le32 b
+  | 30, 6 => [o.m.flags] ++ le64 (f64Bits o.m.value)
+  | 34, 1 => [0, 0]
+  | 34, 2 => [0, 0, 0, 0]
+  | 34, 3 => [0, 0, 0, 0]
+  | _, _ => []
+
+def stRunLen (c : StCur) : List SObj → Nat
+  | [] => 0
+  | o :: os => if stContinues c o then 1 + stRunLen { c with last := o.idx, n := c.n + 1 } os else 0
+
+/-- one packed octet: bit k = value of the k-th object -/
+def packBits : List SObj → Nat
+  | [] => 0
+  | o :: os => (if o.m.value ≠ 0 then 1 else 0) + 2 * packBits os
+
+/-- the octets the range writer produces for the objects `os` of ONE queue entry -/
+def encodeStatic : Option StCur → List SObj → List Nat
+  | _, [] => []
+  | cur, o :: os =>
+    let cont : Option StCur := match cur with
+      | some c => if stContinues c o then some c else none
+      | none => none
+    match cont with
+    | some c =>
+      (if isBits o.g o.v then
+         (if c.n % 8 = 0 then
+            [packBits ((o :: os).take (min 8 (1 + stRunLen { c with last := o.idx, n := c.n + 1 } os)))]
+          else [])
+       else stObjBytes o) ++ encodeStatic (some { c with last := o.idx, n := c.n + 1 }) os
+    | none =>
+      [o.g, o.v, 0x01] ++ le16 o.idx ++ le16 (o.idx + stRunLen { g := o.g, v := o.v, last := o.idx, n := 1 } os) ++
+        (if isBits o.g o.v then
+           [packBits ((o :: os).take (min 8 (stRunLen { g := o.g, v := o.v, last := o.idx, n := 1 } os + 1)))]
+         else stObjBytes o) ++
+        encodeStatic (some { g := o.g, v := o.v, last := o.idx, n := 1 }) os
+end DbM
+
+/-! ## READ header mapping (`read.rs`) -/
+namespace DbM
+
+inductive ReadAct where
+  | class0
+  | evClass (c : Nat) (limit : Option Nat)
+  | evType (t : PtType) (var : Option Nat) (limit : Option Nat)
+  | evNothing                        -- event type without configured points / frozen analog events
+  | stType (t : PtType) (var : Option Nat) (range : Option (Nat × Nat))
+  | stDeadband (var : Option Nat) (range : Option (Nat × Nat))
+  | stOther (range : Option (Nat × Nat))   -- static type without configured points
+  | stNothing                        -- frozen analog inputs: known, unsupported, IIN2 = 0
+  | attrAll (var : Nat)              -- g0 with 0x06 (no attributes are defined)
+  | attrSpecific (var a b : Nat)     -- g0 with 0x00 / 0x01
+  | noFunc                           -- parses, `ReadHeader::get` = None: IIN2.0
+  | parseError                       -- rejected by the request parser (never reaches `select`)
+  | uncovered                        -- outside this model: qualifiers 0x17 / 0x28 / 0x5B in a READ
+deriving DecidableEq, Repr, Inhabited
+
+def optVar (v : Nat) : Option Nat := if v = 0 then none else some v
+
+/-- variations of group `g` that the parser accepts with qualifier 0x06 -/
+def allObjVars : Nat → List Nat
+  | 1 => [0, 1, 2] | 2 => [0, 1, 2, 3] | 3 => [0, 1, 2] | 4 => [0, 1, 2, 3]
+  | 10 => [0, 1, 2] | 11 => [0, 1, 2] | 13 => [1, 2]
+  | 20 => [0, 1, 2, 5, 6] | 21 => [0, 1, 2, 5, 6, 9, 10] | 22 => [0, 1, 2, 5, 6] | 23 => [0, 1, 2, 5, 6]
+  | 30 => [0, 1, 2, 3, 4, 5, 6] | 31 => [0, 1, 2, 3, 4, 5, 6, 7, 8] | 32 => [0, 1, 2, 3, 4, 5, 6, 7, 8]
+  | 33 => [0, 1, 2, 3, 4, 5, 6, 7, 8] | 34 => [0, 1, 2, 3] | 40 => [0, 1, 2, 3, 4]
+  | 42 => [0, 1, 2, 3, 4, 5, 6, 7, 8] | 43 => [1, 2, 3, 4, 5, 6, 7, 8]
+  | 60 => [1, 2, 3, 4] | 80 => [1] | 102 => [0, 1] | 110 => [0] | 111 => [0]
+  | _ => []
+
+/-- … with qualifiers 0x00 / 0x01 in a READ -/
+def rangedVars : Nat → List Nat
+  | 1 => [0, 1, 2] | 3 => [0, 1, 2] | 10 => [0, 1, 2]
+  | 20 => [0, 1, 2, 5, 6] | 21 => [0, 1, 2, 5, 6, 9, 10]
+  | 30 => [0, 1, 2, 3, 4, 5, 6] | 31 => [0, 1, 2, 3, 4, 5, 6, 7, 8] | 34 => [1, 2, 3] | 40 => [0, 1, 2, 3, 4]
+  | 80 => [1] | 102 => [0, 1] | 110 => [0]
+  | _ => []
+
+/-- … with qualifiers 0x07 / 0x08 (g111 accepts every variation) -/
+def countVars : Nat → List Nat
+  | 2 => [0, 1, 2, 3] | 4 => [0, 1, 2, 3] | 11 => [0, 1, 2] | 13 => [1, 2]
+  | 22 => [0, 1, 2, 5, 6] | 23 => [0, 1, 2, 5, 6]
+  | 32 => [0, 1, 2, 3, 4, 5, 6, 7, 8] | 33 => [0, 1, 2, 3, 4, 5, 6, 7, 8]
+  | 42 => [0, 1, 2, 3, 4, 5, 6, 7, 8] | 43 => [1, 2, 3, 4, 5, 6, 7, 8] | 60 => [2, 3, 4]
+  | _ => []
+
+/-- object size of the count-qualified variations that carry data even in a READ
+    (`CountSequence::parse`): g50v1..4, g51v1/2, g52v1/2; 0 = carries none / not such a variation -/
+def countDataSize : Nat → Nat → Nat
+  | 50, 1 => 6 | 50, 2 => 10 | 50, 3 => 6 | 50, 4 => 11
+  | 51, 1 => 6 | 51, 2 => 6 | 52, 1 => 2 | 52, 2 => 2
+  | _, _ => 0
+
+/-- what a parsed header means, by group / variation, given its range or limit -/
+def classifyGV (g v : Nat) (range : Option (Nat × Nat)) (limit : Option Nat) (isCount isRange : Bool) : ReadAct :=
+  match g with
+  | 1 => .stType .binary (optVar v) range
+  | 30 => .stType .analog (optVar v) range
+  | 34 => .stDeadband (optVar v) range
+  | 3 | 10 | 20 | 21 | 40 | 110 => .stOther range
+  | 31 => .stNothing
+  | 2 => .evType .binary (optVar v) limit
+  | 32 => .evType .analog (optVar v) limit
+  | 4 | 11 | 22 | 23 | 42 => .evNothing
+  | 33 => .evNothing
+  | 111 => if v = 0 then .evNothing else .noFunc
+  | 60 => if v = 1 then (if isCount ∨ isRange then .parseError else .class0) else .evClass (v - 1) limit
+  | 13 | 43 | 80 | 102 | 50 | 51 | 52 => .noFunc
+  | _ => .parseError
+
+end DbM
+
+/-- `ObjectParser` (READ) + `ReadHeader::get` for one header -/
+def ReadHdr.classify (h : ReadHdr) : ReadAct :=
+  if h.group = 0 then
+    -- `Variation::lookup(0, 0)` = None; every other variation of group 0 is an attribute
+    if h.var = 0 ∨ h.var > 255 then .parseError
+    else if h.qual = 0x06 then .attrAll h.var
+    else if h.qual = 0x00 ∨ h.qual = 0x01 then (if h.b < h.a then .parseError else .attrSpecific h.var h.a h.b)
+    else if h.qual = 0x17 ∨ h.qual = 0x28 ∨ h.qual = 0x5B then .uncovered
+    else .parseError
+  else
+  if h.qual = 0x06 then
+    if (allObjVars h.group).contains h.var then classifyGV h.group h.var none none false false else .parseError
+  else if h.qual = 0x00 ∨ h.qual = 0x01 then
+    if h.b < h.a then .parseError
+    else if (rangedVars h.group).contains h.var then classifyGV h.group h.var (some (h.a, h.b)) none false true
+    else .parseError
+  else if h.qual = 0x07 ∨ h.qual = 0x08 then
+    if h.group = 111 ∨ (countVars h.group).contains h.var ∨ countDataSize h.group h.var ≠ 0 then classifyGV h.group h.var none (some h.a) true false
+    else .parseError
+  else if h.qual = 0x17 ∨ h.qual = 0x28 ∨ h.qual = 0x5B then .uncovered
+  else .parseError
+
+namespace DbM
+def IIN2_NO_FUNC_CODE_SUPPORT : Nat := 0x01
+def IIN2_PARAMETER_ERROR : Nat := 0x04
+
+end DbM
+
+/-- `SelectionQueue::push_back` + `push_selection` -/
+def Db.pushSel (db : Db) (it : SelItem) : Db × Nat :=
+  if db.queue.length = db.selCap then (db, IIN2_PARAMETER_ERROR)
+  else ({ db with queue := db.queue ++ [it] }, 0)
+
+namespace DbM
+/-- copy `current` to `selected` for every point in [start, stop] -/
+def snapshot (start stop : Nat) : List (Nat × Point) → List (Nat × Point)
+  | [] => []
+  | (i, p) :: rest =>
+    (if start ≤ i ∧ i ≤ stop then (i, { p with selected := p.current }) else (i, p)) :: snapshot start stop rest
+
+def fullRange (m : List (Nat × Point)) : Option (Nat × Nat) :=
+  match m.head?, m.getLast? with
+  | some a, some b => some (a.1, b.1)
+  | _, _ => none
+
+def kindOf (t : PtType) (var : Option Nat) : SelKind :=
+  match t with
+  | .binary => .binary var | .analog => .analog var
+
+end DbM
+
+/-- `StaticDatabase::select_by_type` -/
+def Db.selectStatic (db : Db) (t : PtType) (var : Option Nat) (range : Option (Nat × Nat)) : Db × Nat :=
+  match (match range with | some r => some r | none => fullRange (db.map t)) with
+  | none => (db, 0)
+  | some (a, b) => (db.setMap t (snapshot a b (db.map t))).pushSel { kind := kindOf t var, start := a, stop := b }
+
+/-- `select_class_zero` (binary, then analog; the other enabled types have no points) -/
+def Db.selectClass0 (db : Db) : Db × Nat :=
+  let (db1, i1) := db.selectStatic .binary none none
+  let (db2, i2) := db1.selectStatic .analog none none
+  (db2, i1 ||| i2)
 
 /-- `DatabaseHandle::select` for one header; returns the IIN2 bits it contributes -/
-def Db.select (db : Db) (_h : ReadHdr) : Db × Nat := (db, 0)
+def Db.select (db : Db) (h : ReadHdr) : Db × Nat :=
+  match h.classify with
+  | .class0 => db.selectClass0
+  | .evClass c limit =>
+    ({ db with events := (selectEvents (fun r => r.cls == c) none limit db.events).1 }, 0)
+  | .evType t var limit =>
+    ({ db with events := (selectEvents (fun r => r.ty == t) var limit db.events).1 }, 0)
+  | .evNothing => (db, 0)
+  | .stType t var range => db.selectStatic t var range
+  | .stDeadband var range =>
+    match (match range with | some r => some r | none => fullRange db.ans) with
+    | none => (db, 0)
+    | some (a, b) => db.pushSel { kind := .deadband var, start := a, stop := b }
+  | .stOther range =>
+    match range with
+    | none => (db, 0)
+    | some (a, b) => db.pushSel { kind := .other, start := a, stop := b }
+  | .stNothing => (db, 0)
+  | .attrAll var =>
+    -- 254 / 255: one selection per defined set — there is none
+    if var = 254 ∨ var = 255 then (db, 0) else (db, IIN2_PARAMETER_ERROR)
+  | .attrSpecific var a b =>
+    if a ≠ b ∨ a > 255 then (db, IIN2_PARAMETER_ERROR)
+    else if var = 254 ∨ var = 255 then
+      (if db.attrSel < 32 then ({ db with attrSel := db.attrSel + 1 }, 0) else (db, IIN2_PARAMETER_ERROR))
+    else (db, IIN2_NO_FUNC_CODE_SUPPORT)     -- `map.exists(set, var)` is false
+  | .noFunc => (db, IIN2_NO_FUNC_CODE_SUPPORT)
+  | .parseError => (db, IIN2_NO_FUNC_CODE_SUPPORT)
+  | .uncovered => (db, IIN2_NO_FUNC_CODE_SUPPORT)
+
+/-- does `ReadHeader::get` return `Some` for this (parsed) header — i.e. is it supported in READ
+    requests, independent of the database contents.  `Db.select` contributes
+    NO_FUNC_CODE_SUPPORT (0x01) when this is false; the only other source of that bit is a g0
+    header for one specific attribute that is not defined (`attrSpecific` with a variation other
+    than 254 / 255), which `ReadHeader::get` accepts and `AttrHandler::select` answers with 0x01. -/
+def Db.readSupported (h : ReadHdr) : Bool :=
+  match h.classify with
+  | .noFunc | .parseError | .uncovered => false
+  | _ => true
+
+/-! ## response writing -/
 
 /-- `write_response_headers` into a cursor with `cap` octets left:
     (octets written, has_events, complete) -/
-def Db.writeResponse (db : Db) (_cap : Nat) : Db × List Nat × Bool × Bool := (db, [], false, true)
+def Db.writeResponse (db : Db) (cap : Nat) : Db × List Nat × Bool × Bool :=
+  let (db1, w, evComplete) := db.writeEvents cap
+  let evBytes := encodeEvents none w
+  if evComplete then
+    let (ws, q, _) := qLoop db1 cap db1.queue evBytes.length
+    -- `attrs.write` runs only when the static data is complete; with no attribute defined it
+    -- writes nothing, drains its selection and reports completion
+    ({ db1 with queue := q, attrSel := if q.isEmpty then 0 else db1.attrSel },
+     evBytes ++ ws.flatMap (encodeStatic none), !w.isEmpty, q.isEmpty)
+  else
+    (db1, evBytes, !w.isEmpty, false)
+
+/-- `Database::reset` -/
+def Db.reset (db : Db) : Db :=
+  { db with queue := [], attrSel := 0, events := db.events.map (fun r => { r with st := .unselected }), written := {} }
 
 /-- `DatabaseHandle::write_unsolicited` (reset, select classes, write events only):
     (octets written, number of events) -/
-def Db.writeUnsolicited (db : Db) (_c1 _c2 _c3 : Bool) (_cap : Nat) : Db × List Nat × Nat := (db, [], 0)
+def Db.writeUnsolicited (db : Db) (c1 c2 c3 : Bool) (cap : Nat) : Db × List Nat × Nat :=
+  let db0 := db.reset
+  let (evs, n) := selectEvents (fun r => (c1 && r.cls == 1) || (c2 && r.cls == 2) || (c3 && r.cls == 3)) none none db0.events
+  let db1 := { db0 with events := evs }
+  if n = 0 then (db1, [], 0)
+  else
+    let (db2, w, _) := db1.writeEvents cap
+    (db2, encodeEvents none w, w.length)
+
+/-- `is_any_full` -/
+def Db.isAnyFull (db : Db) : Bool :=
+  db.evMax != 0 && (db.total.bin ≥ db.evMax || db.total.an ≥ db.evMax)
 
 /-- `clear_written_events`: released ids in order, remaining per-class totals -/
-def Db.clearWritten (db : Db) : Db × List Nat × (Nat × Nat × Nat) := (db, [], (0, 0, 0))
-
-/-- `Database::reset` -/
-def Db.reset (db : Db) : Db := db
+def Db.clearWritten (db : Db) : Db × List Nat × (Nat × Nat × Nat) :=
+  let gone := db.events.filter (fun r => r.st == .written)
+  let total := gone.foldl Counters.dec db.total
+  let db1 := { db with events := db.events.filter (fun r => r.st != .written), total := total, written := {} }
+  let db2 := if db1.isAnyFull then db1 else { db1 with overflown := false }
+  (db2, gone.map (·.id), (total.c1, total.c2, total.c3))
 
 /-- `unwritten_classes`; `none` = the checked subtraction panics (dev build) -/
-def Db.unwrittenClasses (_db : Db) : Option (Bool × Bool × Bool) := some (false, false, false)
+def Db.unwrittenClasses (db : Db) : Option (Bool × Bool × Bool) :=
+  if db.written.c1 > db.total.c1 ∨ db.written.c2 > db.total.c2 ∨ db.written.c3 > db.total.c3 then none
+  else some (decide (db.total.c1 - db.written.c1 > 0), decide (db.total.c2 - db.written.c2 > 0),
+             decide (db.total.c3 - db.written.c3 > 0))
 
-def Db.isOverflown (_db : Db) : Bool := false
+def Db.isOverflown (db : Db) : Bool := db.overflown
 
+/-! ## READ object-header octets → `ReadHdr` list (sizes by qualifier only; validity is
+`ReadHdr.classify`) -/
+
+namespace DbM
+/-- `none` = truncated or a qualifier octet the parser does not know -/
+def parseReadHdrs (fuel : Nat) (bs : List Nat) : Option (List ReadHdr) :=
+  match fuel, bs with
+  | _, [] => some []
+  | 0, _ => none
+  | fuel + 1, g :: v :: q :: rest =>
+    if q = 0x06 then (parseReadHdrs fuel rest).map ({ group := g, var := v, qual := q } :: ·)
+    else if q = 0x00 then
+      match rest with
+      | a :: b :: rest' => (parseReadHdrs fuel rest').map ({ group := g, var := v, qual := q, a := a, b := b } :: ·)
+      | _ => none
+    else if q = 0x01 then
+      match rest with
+      | a0 :: a1 :: b0 :: b1 :: rest' =>
+        (parseReadHdrs fuel rest').map ({ group := g, var := v, qual := q, a := a0 + 256 * a1, b := b0 + 256 * b1 } :: ·)
+      | _ => none
+    else if q = 0x07 then
+      match rest with
+      | a :: rest' =>
+        let n := a * countDataSize g v
+        if rest'.length < n then none
+        else (parseReadHdrs fuel (rest'.drop n)).map ({ group := g, var := v, qual := q, a := a } :: ·)
+      | _ => none
+    else if q = 0x08 then
+      match rest with
+      | a0 :: a1 :: rest' =>
+        let n := (a0 + 256 * a1) * countDataSize g v
+        if rest'.length < n then none
+        else (parseReadHdrs fuel (rest'.drop n)).map ({ group := g, var := v, qual := q, a := a0 + 256 * a1 } :: ·)
+      | _ => none
+    else none
+  | _, _ => none
+
+end DbM
 end Dnp3
